@@ -115,8 +115,8 @@ constexpr auto atan_check(T const x) noexcept -> T
 {
     return ( // NaN check
         is_nan(x) ? etl::numeric_limits<T>::quiet_NaN() :
-                  // indistinguishable from zero
-            etl::numeric_limits<T>::epsilon() > abs(x) ? T(0)
+                  // atan(x) = x - x^3/3 + ...: indistinguishable from x (also keeps the sign of a zero)
+            etl::numeric_limits<T>::epsilon() > abs(x) ? x
                                                        :
                                                        // negative or positive
             x < T(0) ? -atan_begin(-x)
